@@ -16,9 +16,11 @@
     abstract mux model merged away and that matter for RELEASE (a liveness matter): mainLoop
     reads the sub-listeners' close channels only at its loop head (`capture`), then blocks in
     select on the captured ones; `atTop` says it is at the loop head.
-    `wake` = fixes/D16.patch: a successful registration wakes mainLoop so that it captures the
-    new sub-listener's close channel. Without it (the tree as found) a sub-listener registered
-    after the capture is invisible to mainLoop until something else wakes it.
+    A sub-listener registered after the capture is invisible to mainLoop until something else
+    wakes it (a connection handed over, another captured sub-listener closing): that is the
+    code as it is, `wake := false`, and what drivers and theorems use. `wake := true` is a
+    HYPOTHETICAL variant (registration wakes mainLoop) kept only to show what the hypothesis of
+    `release_on_last_close` buys; it is not in the code.
   * mainLoop's deferred function (deleteFunc(); base.Close(); close(closeChan)) is the mux step
     `exitA`; at manager level it removes the map entry and closes the base listener.
   Core Lean only.
